@@ -86,6 +86,9 @@ def design(ctx):
     for cfg in cfgs:
         r = tlc.run("OpRefines", cfg=cfg, timeout=1800, workers=16)
         ctx.add_run("OpRefines/" + cfg, r)
+        if r["timeout"]:
+            out.append({"cfg": cfg, "timeout": True, "states": r["distinct"]})
+            continue
         if not r["ok"]:
             raise fw.Machinery(f"the conversion is not a refinement OpMachine => Executor ({cfg}): "
                                f"{tlc.invariant_violated(r)} {(r['error'] or '')[:600]}")
